@@ -654,6 +654,17 @@ bool ObjectFile::writeAttributes(File &objectFile)
 		}
 	}
 
+	// The attributes may still be in the stream buffer; the object has only
+	// been stored when they have been written to the file
+	if (!objectFile.flush())
+	{
+		DEBUG_MSG("Failed to write object %s", path.c_str());
+
+		objectFile.unlock();
+
+		return false;
+	}
+
 	objectFile.unlock();
 
 	return true;
